@@ -752,11 +752,14 @@ class FacadeAppleTV(interface.AppleTV):
 
         self._pending_tasks = set()
         self._pending_tasks.add(asyncio.create_task(self._session_manager.close()))
+
+        # Block access to everything in the public interface. This is done before the
+        # protocols are closed: closing a protocol may notify the device listener, i.e.
+        # run user code that can use the public interface or raise an exception.
+        self._block_everything()
+
         for setup_data in self._protocol_handlers.values():
             self._pending_tasks.update(setup_data.close())
-
-        # Block access to everything in the public interface
-        self._block_everything()
 
         return self._pending_tasks
 
